@@ -19,11 +19,9 @@ Hypotheses (decidable, evaluated on a concrete module at the end): `FragmentOp c
 `moduleOk c items`.  `variantOp_of_treeOp`, `fragmentOp_of_variantOp`: the classes are nested
 (`TreeOp ⊆ VariantOp ⊆ FragmentOp`).
 
-**Not proved for `FragmentOp`: losslessness** (`fragment_lossless`: `Serde.ser … v = .ok (canon … j)` with the
-fragment's entries at the position of the spread).  Missing: the *writing* side for a struct with several
-flattened members (`serFieldsWith` over `n` flatten members and the re-assembly of the record in declaration
-order) — `C01Layers` L4 `flatten_roundtrip` covers exactly one member.  Recursive fragments (`Box`), spreads
-inside abstract positions / inline fragments and nested spreads in fragment bodies are out of scope.
+Losslessness for `FragmentOp` (`fragment_lossless`) is in `C01AbstractI`.  Out of scope: recursive fragments
+(`Box`), spreads inside abstract positions / inline fragments, spreads inside fragment bodies, spreads of
+fragments on a *different* type than the parent (they become variants).
 -/
 set_option linter.unusedSimpArgs false
 set_option linter.unusedVariables false
